@@ -457,8 +457,16 @@ class Bounds:
                 out = self._transfer(n, label, s_in)
                 if t.id in state:
                     merged = join_state(state[t.id], out, self)
-                    if visits.get(t.id, 0) > 6:
-                        merged = {k: v for k, v in merged.items() if state[t.id].get(k) == v}
+                    if visits.get(t.id, 0) > 6 and (t.kind == "for" or (
+                            t.kind == "test" and isinstance(getattr(t, "origin", None), ast.While))):
+                        # widening, per bound: a bound that is still moving is given up, a stable one is kept
+                        wid = {}
+                        for k, v in merged.items():
+                            old = state[t.id].get(k)
+                            if old is None:
+                                continue
+                            wid[k] = (v[0] if old[0] == v[0] else None, v[1] if old[1] == v[1] else None)
+                        merged = wid
                     if merged != state[t.id]:
                         state[t.id] = merged
                         work.append(byid[t.id])
